@@ -13,14 +13,16 @@
                 extraction (model/Transcript.v) post-processed by a map into keys. *)
 From Coq Require Import List NArith ZArith Bool Zpow_facts.
 Import ListNotations.
-Require Import V.base.Bytes V.base.Fld V.gen.Hagrid V.model.Transcript.
+Require Import V.base.Bytes V.base.Fld V.gen.Hagrid V.gen.Hashcom V.model.Transcript.
 
 (* ===================================================================== *)
 (* hashcom                                                                *)
 (* ===================================================================== *)
 
-Definition KeySize : nat := 32.
-Definition DigestSize : nat := 32.
+(* sizes, the hash key and the bytes written to the hash are regenerated from
+   hashcom.go / key.go (gen/Hashcom.v) *)
+Definition KeySize : nat := hashcom_KeySize.
+Definition DigestSize : nat := hashcom_DigestSize.
 
 Fixpoint bytes_eqb (a b : bytes) : bool :=
   match a, b with
@@ -30,7 +32,7 @@ Fixpoint bytes_eqb (a b : bytes) : bool :=
   end.
 
 (* h.Write(message); h.Write(witness[:])  — no length prefix, witness last *)
-Definition hashcom_input (msg w : bytes) : bytes := msg ++ w.
+Definition hashcom_input (k msg w : bytes) : bytes := hashcom_writes k msg w.
 
 (* key and witness are Go arrays [32]byte: other lengths are not representable *)
 Definition hashcom_wf (k w : bytes) : Prop := length k = KeySize /\ length w = DigestSize.
@@ -38,7 +40,7 @@ Definition hashcom_wf (k w : bytes) : Prop := length k = KeySize /\ length w = D
 Section Hashcom.
   Variable H : bytes -> bytes -> bytes.    (* H key input = BLAKE2b-256 keyed with key *)
 
-  Definition hashcom_commit (k msg w : bytes) : bytes := H k (hashcom_input msg w).
+  Definition hashcom_commit (k msg w : bytes) : bytes := H (hashcom_hash_key k) (hashcom_input k msg w).
 
   (* GenericOpen: recompute, Commitment.Equal = bytes.Equal *)
   Definition hashcom_open (k c msg w : bytes) : bool := bytes_eqb (hashcom_commit k msg w) c.
